@@ -37,11 +37,11 @@ PROPS = {
         "scale": {"quick": 1, "thorough": 30},
         "floors": {
             "quick": {"ops": 60000, "drift_rechecks": 10000, "histories_compressed": 1000, "histories_uncompressed": 500,
-                      "op_compose": 500, "op_exists": 500, "op_condition": 1000, "op_ite": 1000, "unique_table_grows": 500},
-            "thorough": {"ops": 1500000},
+                      "op_compose": 500, "op_exists": 500, "op_condition": 1000, "op_ite": 1000, "unique_table_grows": 500, "exh3_blocks": 96},
+            "thorough": {"ops": 1500000, "exh3_blocks": 192},
         },
-        "rule": "Every SDD builder call (var, negate, and, or, xor, iff, ite, condition, exists, compose) is one evaluation: the returned SddPtr is evaluated structurally (OR over prime&sub, BinarySDD as ite(label,high,low), complement flags) into a truth table and compared with the operation's definition on the oracle tables of the arguments. Regimes: allvtrees = every vtree on 4 leaves (5 shapes x 24 labellings) and on 3 leaves, each with compression on and off; rand = short histories on random right-linear / left-linear / balanced / random-shape vtrees with random leaf labelling, <=6 variables, 2..1024-slot unique tables; uncompressed = compression off, <=5 variables, <=16 ops (structural Ord on SddPtr is exponential, see DESIGN); long = 300-700-op histories. Every 16 ops all earlier results are re-evaluated. Non-trivial = expected function neither constant nor literal; distinct = distinct (operation, expected function, vtree, compression) tuples.",
-        "exhaustive_note": "all vtree shapes x leaf labellings on 3 and 4 leaves are enumerated (each with one random history per compression mode); operation histories themselves are sampled",
+        "rule": "Every SDD builder call (var, negate, and, or, xor, iff, ite, condition, exists, compose) is one evaluation: the returned SddPtr is evaluated structurally (OR over prime&sub, BinarySDD as ite(label,high,low), complement flags) into a truth table and compared with the operation's definition on the oracle tables of the arguments. Regimes: exh3 = all 256 functions of 3 variables under each of the 12 vtrees on 3 leaves (compression on): and/or over all ordered pairs, all cofactors, exists, negation, and xor/iff/compose/ite on every 8th second operand; allvtrees = every vtree on 4 leaves (5 shapes x 24 labellings) and on 3 leaves, each with compression on and off; rand = short histories on random right-linear / left-linear / balanced / random-shape vtrees with random leaf labelling, <=6 variables, 2..1024-slot unique tables; uncompressed = compression off, <=5 variables, <=16 ops (structural Ord on SddPtr is exponential, see DESIGN); long = 300-700-op histories. Every 16 ops all earlier results are re-evaluated. Non-trivial = expected function neither constant nor literal; distinct = distinct (operation, expected function, vtree, compression) tuples.",
+        "exhaustive_note": "regime exh3: all Boolean functions of 3 variables x all 12 vtrees on 3 leaves for negate/condition/exists and and/or over all ordered pairs (xor/iff/compose/ite sampled on every 8th operand); all vtree shapes x leaf labellings on 3 and 4 leaves are enumerated with one random history per compression mode; other operation histories are sampled",
         "assumptions": ASSUME_COMMON,
     },
     "C04": {
